@@ -96,7 +96,7 @@ func Check19(c CaseHist, r *core.Rec) {
 		k0, p0, s0 := addrKind(iu), iu.Port(), iu.Protocol()
 		switch op.Kind {
 		case "set":
-			ApplySetter(iu, op.Setter, string(op.Value))
+			ApplySetter(iu, op.Setter, valueFor(iu, op))
 		case "resolve":
 			v, err := iu.Parse(string(op.Value))
 			if err != nil || v == nil {
